@@ -91,3 +91,9 @@ func init() {
 			Old: "\t\tif justDuty != duty {", New: "\t\tif justDuty.Type != duty.Type {"})
 	Link("C03", "C05", "(C05.A1) every justification belongs to the duty of the message that carries it.", []string{"A1"})
 }
+
+func init() {
+	// the scheduler resolves duties through the duties cache (eth2wrap.DutiesCache): "every assigned duty is triggered"
+	// needs the cache to keep every fetched duty of a newly requested validator (a second proposal in one epoch included).
+	Link("C15", "C20", "(C20.Z6) the duties cache's amend path adds exactly the fetched duties of the newly requested validators, scanning the whole batch.", []string{"Z6"})
+}
